@@ -639,6 +639,10 @@ func (ctx Ctx) makeSliceExpr(elt coq.Type, args []ast.Expr) coq.CallExpr {
 func (ctx Ctx) makeExpr(args []ast.Expr) coq.CallExpr {
 	switch typeArg := args[0].(type) {
 	case *ast.MapType:
+		if len(args) > 1 {
+			// NewMap takes no hint, and dropping it would drop its effects
+			ctx.unsupported(args[1], "size hint for make of a map")
+		}
 		mapTy := ctx.mapType(typeArg)
 		return coq.NewCallExpr(coq.GallinaIdent("NewMap"), mapTy.Key, mapTy.Value, coq.UnitLiteral{})
 	case *ast.ArrayType:
@@ -653,6 +657,9 @@ func (ctx Ctx) makeExpr(args []ast.Expr) coq.CallExpr {
 		elt := ctx.coqTypeOfType(args[0], ty.Elem())
 		return ctx.makeSliceExpr(elt, args)
 	case *types.Map:
+		if len(args) > 1 {
+			ctx.unsupported(args[1], "size hint for make of a map")
+		}
 		return coq.NewCallExpr(coq.GallinaIdent("NewMap"),
 			ctx.coqTypeOfType(args[0], ty.Key()),
 			ctx.coqTypeOfType(args[0], ty.Elem()),
